@@ -55,6 +55,10 @@ def rules_seq(rng):
                 flags += "e"
             elif kind < 0.55:
                 flags += "a"
+            elif kind < 0.70:
+                flags += "ea"                          # both flags: replace_all takes precedence
+            if "i" in flags and rng.random() < 0.3:
+                flags += rng.choice(["e", "a", "ea"])  # ignore takes precedence over everything
             if rng.random() < 0.4:
                 flags += "t"
             lit = "".join(rng.choice(alpha) for _ in range(rng.choice([1, 1, 2, 2, 3])))
